@@ -43,17 +43,17 @@ Lemma wire_fields_nil fuel p : wire_fields fuel p = Some [] -> p = [].
 Proof.
   destruct fuel as [|f]; [discriminate|]. cbn [wire_fields]. destruct p as [|b r]; [reflexivity|].
   destruct (varint_dec (b :: r)) as [v n]. destruct (n <? 0); [discriminate|].
-  destruct ((v / 8 <? 1) || (v / 8 >? 536870911)); [discriminate|].
+  destruct ((v / 8 <? 1) || (v / 8 >? 2147483647)); [discriminate|].
   destruct (wire_value _ _) as [[raw rest]|]; [|discriminate]. destruct (wire_fields f rest); discriminate.
 Qed.
 
 Lemma wire_fields_cons fuel p num wt raw r : wire_fields fuel p = Some (WF num wt raw :: r) ->
-  exists f v n p', fuel = S f /\ varint_dec p = (v, n) /\ 0 <= n /\ num = v / 8 /\ wt = v mod 8 /\ 1 <= num <= 536870911 /\
+  exists f v n p', fuel = S f /\ varint_dec p = (v, n) /\ 0 <= n /\ num = v / 8 /\ wt = v mod 8 /\ 1 <= num <= 2147483647 /\
                    wire_value wt (skipn (Z.to_nat n) p) = Some (raw, p') /\ wire_fields f p' = Some r /\ p <> [].
 Proof.
   destruct fuel as [|f]; [discriminate|]. cbn [wire_fields]. destruct p as [|b q]; [discriminate|].
   destruct (varint_dec (b :: q)) as [v n] eqn:Ev. destruct (Z.ltb_spec n 0); [discriminate|].
-  destruct (Z.ltb_spec (v / 8) 1); [discriminate|]. destruct (Z.gtb_spec (v / 8) 536870911); [discriminate|]. cbn [orb].
+  destruct (Z.ltb_spec (v / 8) 1); [discriminate|]. destruct (Z.gtb_spec (v / 8) 2147483647); [discriminate|]. cbn [orb].
   destruct (wire_value (v mod 8) (skipn (Z.to_nat n) (b :: q))) as [[raw' rest]|] eqn:Ew; [|discriminate].
   destruct (wire_fields f rest) as [l|] eqn:El; [|discriminate]. intros Heq. inversion Heq; subst.
   exists f, v, n, rest. repeat split; auto; try lia. discriminate.
@@ -100,7 +100,7 @@ Proof.
         pose proof (take_n_some _ _ _ _ HW) as [Hq [Hlen Hn]].
         assert (Hm : 1 <= m <= Z.of_nat (length q)) by (destruct Hr as [[? ?]|[[? ?]|[? ?]]]; lia).
         assert (Hlen' : len + m <= Z.of_nat (length q)) by (rewrite Hq at 1; rewrite app_length; lia).
-        rewrite to_s64_small by lia. destruct (Z.leb_spec (len + m) 0); [lia|].
+        destruct (Z.gtb_spec len (Z.of_nat (length (q ++ rest)) - m)); [rewrite app_length in *; lia|].
         rewrite Z.add_comm in HW. rewrite (take_n_app_rest _ _ _ _ rest HW). split; [reflexivity|lia].
 Qed.
 
@@ -162,8 +162,8 @@ Section Refine.
     small (p ++ rest) -> pproject d dis f fi ti p = COk forest ->
     pbcut d dis false f fi ti (p ++ rest) (Z.of_nat (length rest)) = (0, rest, enc_forest forest).
 
-  Lemma ptag_field p rest v n : varint_dec p = (v, n) -> 0 <= n -> 1 <= v / 8 <= 536870911 ->
-    ptag (p ++ rest) = (v / 8, v mod 8, skipn (Z.to_nat n) p ++ rest).
+  Lemma ptag_field p rest v n : varint_dec p = (v, n) -> 0 <= n -> 1 <= v / 8 <= 2147483647 ->
+    ptag (p ++ rest) = Some (v / 8, v mod 8, skipn (Z.to_nat n) p ++ rest).
   Proof.
     intros Ev Hn Hnum. unfold ptag. rewrite (varint_dec_app p rest v n Ev Hn).
     destruct (Z.ltb_spec n 0); [lia|]. destruct (Z.gtb_spec (v / 8) 2147483647); [lia|]. destruct (Z.ltb_spec (v / 8) 1); [lia|].
@@ -194,7 +194,6 @@ Section Refine.
       destruct (Z.leb_spec (Z.of_nat (length (p ++ rest))) (Z.of_nat (length rest))) as [Hle|_].
       { exfalso. rewrite app_length in Hle. destruct p; [contradiction|cbn [length] in Hle; lia]. }
       rewrite (ptag_field p rest v n Ev Hn Hnum). fold q.
-      destruct (Z.ltb_spec (v / 8) 0); [lia|].
       cbn [pproj_fields] in Hp.
       assert (IHr : forall out' forest', pproj_fields dis (pproject d dis f) ffs tfs r = COk forest' ->
                 pb_loop dis false (pbcut d dis false f) lf ffs tfs (p' ++ rest) (Z.of_nat (length rest)) out' = (0, rest, out' ++ enc_forest forest')).
@@ -259,3 +258,333 @@ Section Refine.
     intros Hs Hp. pose proof (pbcut_refines_pproject fuel fi ti bs [] forest) as H. rewrite app_nil_r in H. apply H; assumption.
   Qed.
 End Refine.
+
+(* ================================================================== full refinement: success AND failure *)
+Definition nilb {A} (l : list A) : bool := match l with [] => true | _ => false end.
+Definition cls (r : pres) : Z := fst (fst r).
+
+(* what the byte-level walker must do when the sequential spec says [spec]: on success the exact output and consumption,
+   on an error of the domain (1 unknown field, 2 kind mismatch, 4 malformed / truncated) the same error class;
+   5 = input outside the domain, nothing is claimed *)
+Definition agrees (spec : cres (list wtree)) (beyond out : list Z) (r : pres) : Prop :=
+  match spec with
+  | COk forest => r = (0, beyond, out ++ enc_forest forest)
+  | CErr c => c = 5 \/ (cls r = c /\ c <> 0)
+  end.
+
+Lemma nilb_app {A} (a b : list A) : nilb (a ++ b) = nilb b && nilb a.
+Proof. destruct a, b; reflexivity. Qed.
+Lemma nilb_true {A} (l : list A) : nilb l = true -> l = [].
+Proof. destruct l; [reflexivity|discriminate]. Qed.
+
+Lemma wire_value_none_pskip wt q : bytes_ok q -> (wt = 0 \/ wt = 1 \/ wt = 2 \/ wt = 5) -> wire_value wt q = None -> pskip wt q = SkErr.
+Proof.
+  intros Hb Hwt. unfold wire_value, pskip. destruct Hwt as [ -> | [ -> | [ -> | -> ]]]; cbn [Z.eqb Pos.eqb].
+  - destruct (varint_dec q) as [v m] eqn:Ev. destruct (Z.ltb_spec m 0); [reflexivity|]. intros HN.
+    exfalso. pose proof (varint_dec_result q v m Ev) as Hr. unfold take_n in HN.
+    destruct (Z.ltb_spec m 0); [lia|]. destruct (Z.gtb_spec m (Z.of_nat (length q))); [|discriminate].
+    destruct Hr as [[? ?]|[[? ?]|[? ?]]]; lia.
+  - intros HN. rewrite HN. reflexivity.
+  - destruct (varint_dec q) as [len m] eqn:Ev. destruct (Z.ltb_spec m 0); [reflexivity|]. intros HN.
+    destruct (Z.gtb_spec len (Z.of_nat (length q) - m)); [reflexivity|]. rewrite Z.add_comm, HN. reflexivity.
+  - intros HN. rewrite HN. reflexivity.
+Qed.
+
+Section Full.
+  Variable d : pdefs.
+  Variable dis : bool.
+
+  Lemma pspec_loop_inc_never_ok rec : (forall fi ti bs be l, rec fi ti bs true be <> COk l) ->
+    forall fuel ffs tfs bs be l, pspec_loop dis rec fuel ffs tfs bs true be <> COk l.
+  Proof.
+    intros Hrec. induction fuel as [|f IH]; intros ffs tfs bs be l; [discriminate|]. cbn [pspec_loop].
+    destruct (wire_tag bs) as [| | |num wt r]; try (destruct be; discriminate); try discriminate.
+    assert (Hskip : forall l', match wire_value wt r with Some (_, rest) => pspec_loop dis rec f ffs tfs rest true be | None => if be then CErr 4 else CErr 5 end <> COk l').
+    { intros l'. destruct (wire_value wt r) as [[? rest]|]; [apply IH|destruct be; discriminate]. }
+    destruct (pfind num ffs) as [ff|]; [|destruct dis; [discriminate|apply Hskip]].
+    destruct (pfind num tfs) as [tf|]; [|apply Hskip].
+    destruct (negb _); [discriminate|]. destruct (_ =? K_MESSAGE).
+    - destruct (negb _); [discriminate|]. destruct (varint_dec r) as [len n]. destruct (n <? 0); [destruct be; discriminate|].
+      destruct (len >=? 2 ^ 63); [discriminate|]. destruct (len <=? _).
+      + destruct (rec _ _ _ _ _); [|discriminate].
+        destruct (pspec_loop dis rec f ffs tfs _ true be) eqn:E; [exfalso; exact (IH _ _ _ _ _ E)|discriminate].
+      + destruct be; [|discriminate]. destruct (rec _ _ _ _ _); discriminate.
+    - destruct (wire_value wt r) as [[raw rest]|]; [|destruct be; discriminate].
+      destruct (pspec_loop dis rec f ffs tfs rest true be) eqn:E; [exfalso; exact (IH _ _ _ _ _ E)|discriminate].
+  Qed.
+
+  Lemma pspec_inc_never_ok : forall fuel fi ti bs be l, pspec d dis fuel fi ti bs true be <> COk l.
+  Proof.
+    induction fuel as [|f IH]; intros fi ti bs be l; [discriminate|]. cbn [pspec].
+    destruct (pmsg_def d fi); [|discriminate]. destruct (pmsg_def d ti); [|discriminate].
+    apply pspec_loop_inc_never_ok. intros. apply IH.
+  Qed.
+
+  Definition sub_agrees (f : nat) : Prop := forall fi ti frame beyond inc stop,
+    small (frame ++ beyond) -> (inc = true -> beyond = [] /\ stop < 0) -> (inc = false -> stop = Z.of_nat (length beyond)) ->
+    agrees (pspec d dis f fi ti frame inc (nilb beyond)) beyond [] (pbcut d dis false f fi ti (frame ++ beyond) stop).
+
+  Lemma wire_tag_cases bs :
+    match wire_tag bs with
+    | TgEnd => bs = []
+    | TgBad => bs <> [] /\ ptag bs = None
+    | TgOut => True
+    | TgOk num wt r => bs <> [] /\ exists v n, varint_dec bs = (v, n) /\ 0 <= n /\ num = v / 8 /\ wt = v mod 8 /\ 1 <= num <= 2147483647 /\
+                       r = skipn (Z.to_nat n) bs /\ (wt = 0 \/ wt = 1 \/ wt = 2 \/ wt = 5)
+    end.
+  Proof.
+    unfold wire_tag, ptag. destruct bs as [|b q]; [reflexivity|].
+    destruct (varint_dec (b :: q)) as [v n] eqn:Ev. destruct (Z.ltb_spec n 0); [split; [discriminate|reflexivity]|].
+    destruct (Z.ltb_spec (v / 8) 1); cbn [orb].
+    { split; [discriminate|]. destruct (v / 8 >? 2147483647); reflexivity. }
+    destruct (Z.gtb_spec (v / 8) 2147483647); [split; [discriminate|reflexivity]|].
+    assert (Hm : 0 <= v mod 8 < 8) by (apply Z.mod_pos_bound; lia).
+    destruct (Z.eqb_spec (v mod 8) 3); [exact I|]. destruct (Z.eqb_spec (v mod 8) 4); [exact I|].
+    destruct (Z.eqb_spec (v mod 8) 6); [exact I|]. destruct (Z.eqb_spec (v mod 8) 7); [exact I|]. cbn [orb].
+    split; [discriminate|]. exists v, n. repeat split; auto; try lia.
+  Qed.
+
+  Lemma pb_loop_agrees f ffs tfs : sub_agrees f ->
+    forall sf frame lf out beyond inc stop,
+    small (frame ++ beyond) -> (inc = true -> beyond = [] /\ stop < 0) -> (inc = false -> stop = Z.of_nat (length beyond)) ->
+    (length frame < lf)%nat ->
+    agrees (pspec_loop dis (pspec d dis f) sf ffs tfs frame inc (nilb beyond)) beyond out
+           (pb_loop dis false (pbcut d dis false f) lf ffs tfs (frame ++ beyond) stop out).
+  Proof.
+    intros Hsub. induction sf as [|sf IH]; intros frame lf out beyond inc stop Hsm Hinc Hcomp Hlf; [left; reflexivity|].
+    destruct lf as [|lf]; [lia|]. cbn [pspec_loop pb_loop].
+    set (be := nilb beyond) in *.
+    assert (Hbe : be = true -> beyond = []) by (apply nilb_true).
+    pose proof (wire_tag_cases frame) as Htag. destruct (wire_tag frame) as [| | |num wt r].
+    - (* end of the frame *) subst frame. cbn [app]. destruct inc.
+      + destruct (Hinc eq_refl) as [-> Hst]. cbn [length]. destruct (Z.leb_spec (Z.of_nat 0) stop); [lia|].
+        cbn. right. split; [reflexivity|discriminate].
+      + rewrite (Hcomp eq_refl), Z.leb_refl. unfold agrees, enc_forest. cbn [flat_map]. rewrite app_nil_r. reflexivity.
+    - (* malformed tag *) destruct Htag as [Hne Hpt]. destruct be eqn:Eb; [|left; reflexivity].
+      rewrite (Hbe eq_refl), app_nil_r in *. right.
+      destruct (Z.leb_spec (Z.of_nat (length frame)) stop) as [Hle|_].
+      { exfalso. destruct inc; [destruct (Hinc eq_refl); lia|rewrite (Hcomp eq_refl) in Hle; destruct frame; [contradiction|cbn [length] in Hle; lia]]. }
+      rewrite Hpt. split; [reflexivity|discriminate].
+    - left; reflexivity.
+    - destruct Htag as [Hne [v [n [Ev [Hn [-> [-> [Hnum [-> Hwt]]]]]]]]].
+      set (r := skipn (Z.to_nat n) frame) in *.
+      destruct (Z.leb_spec (Z.of_nat (length (frame ++ beyond))) stop) as [Hle|_].
+      { exfalso. rewrite app_length in Hle. destruct inc; [destruct (Hinc eq_refl); lia|rewrite (Hcomp eq_refl) in Hle; destruct frame; [contradiction|cbn [length] in Hle; lia]]. }
+      assert (Hpt : ptag (frame ++ beyond) = Some (v / 8, v mod 8, r ++ beyond)).
+      { unfold ptag. rewrite (varint_dec_app frame beyond v n Ev Hn). destruct (Z.ltb_spec n 0); [lia|].
+        destruct (Z.gtb_spec (v / 8) 2147483647); [lia|]. destruct (Z.ltb_spec (v / 8) 1); [lia|].
+        pose proof (varint_dec_result frame v n Ev) as Hres. unfold r.
+        rewrite skipn_app_le by (destruct Hres as [[? ?]|[[? ?]|[? ?]]]; lia). reflexivity. }
+      rewrite Hpt.
+      pose proof (varint_dec_result frame v n Ev) as Hres.
+      assert (Hn1 : 1 <= n <= Z.of_nat (length frame)) by (destruct Hres as [[? ?]|[[? ?]|[? ?]]]; lia).
+      assert (Hsr : small (r ++ beyond)).
+      { unfold r. rewrite <- skipn_app_le by lia. apply small_skipn. exact Hsm. }
+      assert (Hrlen : (length r < length frame)%nat) by (unfold r; rewrite skipn_length; lia).
+      (* the three ways a step ends *)
+      assert (Hbad : forall res, (be = true -> cls res = 4) -> agrees (if be then CErr 4 else CErr 5) beyond out res).
+      { intros res Hres4. destruct be; [right; split; [apply Hres4; reflexivity|discriminate]|left; reflexivity]. }
+      assert (Hcont : forall rest out', (length rest <= length r)%nat -> small (rest ++ beyond) ->
+                agrees (pspec_loop dis (pspec d dis f) sf ffs tfs rest inc be) beyond out'
+                       (pb_loop dis false (pbcut d dis false f) lf ffs tfs (rest ++ beyond) stop out')).
+      { intros rest out' Hl Hs. apply IH; auto. lia. }
+      assert (Hskip : agrees (match wire_value (v mod 8) r with
+                              | Some (_, rest) => pspec_loop dis (pspec d dis f) sf ffs tfs rest inc be
+                              | None => if be then CErr 4 else CErr 5 end) beyond out
+                             (match pskip (v mod 8) (r ++ beyond) with
+                              | SkOk r' => pb_loop dis false (pbcut d dis false f) lf ffs tfs r' stop out
+                              | SkErr => (4, r ++ beyond, out) end)).
+      { destruct (wire_value (v mod 8) r) as [[raw rest]|] eqn:Ewv.
+        - destruct (pskip_wire_value _ _ _ _ beyond (small_app_l _ _ Hsr) Ewv) as [-> _].
+          pose proof (wire_value_split _ _ _ _ Ewv) as Hq.
+          apply Hcont; [rewrite Hq, app_length; lia|]. rewrite Hq, <- app_assoc in Hsr. apply (small_app_r _ _ Hsr).
+        - apply Hbad. intros Eb. rewrite (Hbe Eb), app_nil_r.
+          rewrite (wire_value_none_pskip _ _ (proj1 (small_app_l _ _ Hsr)) Hwt Ewv). reflexivity. }
+      destruct (pfind (v / 8) ffs) as [ff|].
+      2:{ destruct dis; [right; split; [reflexivity|discriminate]|exact Hskip]. }
+      destruct (pfind (v / 8) tfs) as [tf|]; [|exact Hskip].
+      destruct (negb (pf_kind ff =? pf_kind tf)); [right; split; [reflexivity|discriminate]|].
+      destruct (pf_kind ff =? K_MESSAGE).
+      + (* message-kind field *)
+        destruct (Z.eqb_spec (v mod 8) 2) as [E2|]; cbn [negb]; [|left; reflexivity].
+        destruct (varint_dec r) as [len m] eqn:Evr.
+        destruct (Z.ltb_spec m 0) as [Hm|Hm].
+        { apply Hbad. intros Eb. rewrite (Hbe Eb), app_nil_r, Evr. destruct (Z.ltb_spec m 0); [reflexivity|lia]. }
+        rewrite (varint_dec_app r beyond len m Evr Hm). destruct (Z.ltb_spec m 0); [lia|].
+        destruct (Z.geb_spec len (2 ^ 63)) as [|Hl63]; [left; reflexivity|].
+        pose proof (varint_dec_value r len m (proj1 (small_app_l _ _ Hsr)) Evr) as Hv.
+        pose proof (varint_dec_result r len m Evr) as Hresr.
+        assert (Hm1 : 1 <= m <= Z.of_nat (length r)) by (destruct Hresr as [[? ?]|[[? ?]|[? ?]]]; lia).
+        rewrite to_s64_small by lia.
+        set (r2 := skipn (Z.to_nat m) r) in *.
+        assert (Hr2 : skipn (Z.to_nat m) (r ++ beyond) = r2 ++ beyond) by (unfold r2; apply skipn_app_le; lia).
+        rewrite Hr2.
+        assert (Hsr2 : small (r2 ++ beyond)) by (rewrite <- Hr2; apply small_skipn; exact Hsr).
+        assert (Hr2len : (length r2 < length r)%nat) by (unfold r2; rewrite skipn_length; lia).
+        destruct (Z.leb_spec len (Z.of_nat (length r2))) as [Hfit|Hover].
+        * (* the sub message fits into the frame *)
+          set (cf := firstn (Z.to_nat len) r2). set (after := skipn (Z.to_nat len) r2).
+          assert (Hsplit : r2 = cf ++ after) by (symmetry; apply firstn_skipn).
+          assert (Hcfl : Z.of_nat (length cf) = len) by (unfold cf; rewrite firstn_length; lia).
+          assert (Hnb : be && match after with [] => true | _ :: _ => false end = nilb (after ++ beyond)).
+          { rewrite nilb_app. unfold be. destruct (nilb beyond), after; reflexivity. }
+          rewrite Hnb.
+          pose proof (Hsub (pf_sub ff) (pf_sub tf) cf (after ++ beyond) false (Z.of_nat (length (r2 ++ beyond)) - len)) as Hs.
+          rewrite app_assoc, <- Hsplit in Hs.
+          specialize (Hs Hsr2 ltac:(discriminate) ltac:(intros _; rewrite Hsplit at 1; rewrite <- app_assoc, (app_length cf); lia)).
+          destruct (pspec d dis f (pf_sub ff) (pf_sub tf) cf false (nilb (after ++ beyond))) as [kids|c].
+          -- cbn [agrees] in Hs. rewrite Hs. cbn [Z.eqb negb andb app].
+             assert (Hal : (length after <= length r)%nat) by (unfold after; rewrite skipn_length; lia).
+             assert (Hsa : small (after ++ beyond)). { rewrite Hsplit, <- app_assoc in Hsr2. apply (small_app_r _ _ Hsr2). }
+             pose proof (Hcont after ((out ++ varint_enc (v / 8 * 8 + (v mod 8) mod 8)) ++ varint_enc (Z.of_nat (length (enc_forest kids))) ++ enc_forest kids) Hal Hsa) as Hc.
+             destruct (pspec_loop dis (pspec d dis f) sf ffs tfs after inc be) as [l|c]; [|exact Hc].
+             cbn [agrees] in *. rewrite Hc.
+             change (enc_forest (TMsg (v / 8) (v mod 8) kids :: l)) with (enc_tree (TMsg (v / 8) (v mod 8) kids) ++ enc_forest l).
+             rewrite enc_tree_msg. rewrite Z.mod_mod by lia. rewrite <- !app_assoc. reflexivity.
+          -- destruct Hs as [->|[Hc Hc0]]; [left; reflexivity|]. right. split; [|exact Hc0].
+             destruct (pbcut d dis false f (pf_sub ff) (pf_sub tf) (r2 ++ beyond) (Z.of_nat (length (r2 ++ beyond)) - len)) as [[c' r3] o2].
+             cbn [cls fst] in Hc. subst c'. destruct (Z.eqb_spec c 0); [contradiction|]. reflexivity.
+        * (* the sub message overruns the frame *)
+          destruct (Z.leb_spec len (Z.of_nat (length r2))); [lia|].
+          destruct be eqn:Eb; [|left; reflexivity]. rewrite (Hbe eq_refl), app_nil_r in *.
+          pose proof (Hsub (pf_sub ff) (pf_sub tf) r2 [] true (Z.of_nat (length r2) - len)) as Hs. rewrite app_nil_r in Hs.
+          specialize (Hs Hsr2 ltac:(intros _; split; [reflexivity|lia]) ltac:(discriminate)). cbn [nilb] in Hs.
+          destruct (pspec d dis f (pf_sub ff) (pf_sub tf) r2 true true) as [kids|c] eqn:Es; [exfalso; exact (pspec_inc_never_ok _ _ _ _ _ _ Es)|].
+          destruct Hs as [->|[Hc Hc0]]; [left; reflexivity|]. right. split; [|exact Hc0].
+          destruct (pbcut d dis false f (pf_sub ff) (pf_sub tf) r2 (Z.of_nat (length r2) - len)) as [[c' r3] o2].
+          cbn [cls fst] in Hc. subst c'. destruct (Z.eqb_spec c 0); [contradiction|]. reflexivity.
+      + (* scalar-kind field: raw copy of the record *)
+        destruct (wire_value (v mod 8) r) as [[raw rest]|] eqn:Ewv.
+        * destruct (pskip_wire_value _ _ _ _ beyond (small_app_l _ _ Hsr) Ewv) as [-> Hw8].
+          pose proof (wire_value_split _ _ _ _ Ewv) as Hq.
+          assert (Hcopy : firstn (length (r ++ beyond) - length (rest ++ beyond)) (r ++ beyond) = raw).
+          { rewrite Hq, <- app_assoc. apply firstn_app_exact'. }
+          rewrite Hcopy.
+          assert (Hl : (length rest <= length r)%nat) by (rewrite Hq, app_length; lia).
+          assert (Hs : small (rest ++ beyond)). { rewrite Hq, <- app_assoc in Hsr. apply (small_app_r _ _ Hsr). }
+          pose proof (Hcont rest (out ++ varint_enc (v / 8 * 8 + (v mod 8) mod 8) ++ raw) Hl Hs) as Hc.
+          destruct (pspec_loop dis (pspec d dis f) sf ffs tfs rest inc be) as [l|c]; [|exact Hc].
+          cbn [agrees] in *. rewrite Hc.
+          change (enc_forest (TLeaf (v / 8) (v mod 8) raw :: l)) with (enc_tree (TLeaf (v / 8) (v mod 8) raw) ++ enc_forest l).
+          cbn [enc_tree]. rewrite Z.mod_mod by lia. rewrite <- !app_assoc. reflexivity.
+        * apply Hbad. intros Eb. rewrite (Hbe Eb), app_nil_r.
+          rewrite (wire_value_none_pskip _ _ (proj1 (small_app_l _ _ Hsr)) Hwt Ewv). reflexivity.
+  Qed.
+
+  (* FULL REFINEMENT: for every frame of the domain, complete or truncated, at every nesting depth, the byte-level walker
+     (mirror of marshalTo) yields exactly the encoding of the projection and consumes exactly the frame when the sequential
+     spec succeeds, and fails with the spec's error class when the spec fails *)
+  Theorem pbcut_refines_pspec : forall fuel, sub_agrees fuel.
+  Proof.
+    induction fuel as [|f IH]; intros fi ti frame beyond inc stop Hsm Hinc Hcomp; [left; reflexivity|].
+    cbn [pspec pbcut].
+    destruct (pmsg_def d fi) as [ffs|]; [|left; reflexivity]. destruct (pmsg_def d ti) as [tfs|]; [|left; reflexivity].
+    apply (pb_loop_agrees f ffs tfs IH); auto. rewrite app_length. lia.
+  Qed.
+End Full.
+
+(* ================================================================== the sequential spec succeeds only with the declarative projection *)
+Lemma bytes_ok_firstn n bs : bytes_ok bs -> bytes_ok (firstn n bs).
+Proof.
+  unfold bytes_ok. revert bs. induction n as [|n IH]; intros bs H; [constructor|]. destruct bs as [|b r]; [constructor|].
+  cbn [firstn]. inversion H; subst. constructor; auto.
+Qed.
+Lemma bytes_ok_app_r a b : bytes_ok (a ++ b) -> bytes_ok b.
+Proof. unfold bytes_ok. intros H. apply Forall_app in H. apply H. Qed.
+
+Lemma skipn_skipn' {A} (a b : nat) (l : list A) : skipn a (skipn b l) = skipn (b + a) l.
+Proof.
+  revert l. induction b as [|b IH]; intros l; [reflexivity|]. destruct l as [|x r]; [cbn; destruct a; reflexivity|]. cbn [skipn Nat.add]. apply IH.
+Qed.
+
+Section Bridge.
+  Variable d : pdefs.
+  Variable dis : bool.
+
+  Lemma pspec_loop_ok_pproj f ffs tfs :
+    (forall fi ti bs be l, bytes_ok bs -> pspec d dis f fi ti bs false be = COk l -> pproject d dis f fi ti bs = COk l) ->
+    forall sf bs be forest, bytes_ok bs -> pspec_loop dis (pspec d dis f) sf ffs tfs bs false be = COk forest ->
+    forall wf, (length bs < wf)%nat ->
+    exists fs, wire_fields wf bs = Some fs /\ pproj_fields dis (pproject d dis f) ffs tfs fs = COk forest.
+  Proof.
+    intros Hrec. induction sf as [|sf IH]; intros bs be forest Hb H wf Hwf; [discriminate|].
+    destruct wf as [|wf]; [lia|]. cbn [pspec_loop] in H.
+    pose proof (wire_tag_cases bs) as Htag. destruct (wire_tag bs) as [| | |num wt r].
+    - subst bs. inversion H; subst. exists []. split; reflexivity.
+    - destruct be; discriminate.
+    - discriminate.
+    - destruct Htag as [Hne [v [n [Ev [Hn [-> [-> [Hnum [-> Hwt]]]]]]]]].
+      set (r := skipn (Z.to_nat n) bs) in *.
+      pose proof (varint_dec_result bs v n Ev) as Hres.
+      assert (Hn1 : 1 <= n <= Z.of_nat (length bs)) by (destruct Hres as [[? ?]|[[? ?]|[? ?]]]; lia).
+      assert (Hrl : (length r < length bs)%nat) by (unfold r; rewrite skipn_length; lia).
+      assert (Hbr : bytes_ok r) by (unfold r; apply bytes_ok_skipn; exact Hb).
+      (* one step of the generic decoder *)
+      assert (Hstep : forall raw rest fs', wire_value (v mod 8) r = Some (raw, rest) -> wire_fields wf rest = Some fs' ->
+                wire_fields (S wf) bs = Some (WF (v / 8) (v mod 8) raw :: fs')).
+      { intros raw rest fs' Hv Hf. cbn [wire_fields]. destruct bs as [|b0 q]; [contradiction|]. rewrite Ev.
+        destruct (Z.ltb_spec n 0); [lia|]. destruct (Z.ltb_spec (v / 8) 1); [lia|]. destruct (Z.gtb_spec (v / 8) 2147483647); [lia|].
+        cbn [orb]. fold r. rewrite Hv, Hf. reflexivity. }
+      assert (Hskip : forall l, match wire_value (v mod 8) r with
+                                | Some (_, rest) => pspec_loop dis (pspec d dis f) sf ffs tfs rest false be
+                                | None => if be then CErr 4 else CErr 5 end = COk l ->
+                exists raw rest fs', wire_value (v mod 8) r = Some (raw, rest) /\ wire_fields wf rest = Some fs' /\
+                                     pproj_fields dis (pproject d dis f) ffs tfs fs' = COk l).
+      { intros l Hl. destruct (wire_value (v mod 8) r) as [[raw rest]|] eqn:Ewv; [|destruct be; discriminate].
+        pose proof (wire_value_split _ _ _ _ Ewv) as Hq.
+        destruct (IH rest be l ltac:(rewrite Hq in Hbr; apply (bytes_ok_app_r _ _ Hbr)) Hl wf) as [fs' [Hf Hp]]; [rewrite Hq, app_length in Hrl; lia|].
+        exists raw, rest, fs'. auto. }
+      destruct (pfind (v / 8) ffs) as [ff|] eqn:Eff.
+      2:{ destruct dis eqn:Ed; [discriminate|]. destruct (Hskip forest H) as [raw [rest [fs' [Hv [Hf Hp]]]]].
+          exists (WF (v / 8) (v mod 8) raw :: fs'). split; [apply (Hstep raw rest fs' Hv Hf)|]. cbn [pproj_fields]. rewrite Eff. exact Hp. }
+      destruct (pfind (v / 8) tfs) as [tf|] eqn:Etf.
+      2:{ destruct (Hskip forest H) as [raw [rest [fs' [Hv [Hf Hp]]]]].
+          exists (WF (v / 8) (v mod 8) raw :: fs'). split; [apply (Hstep raw rest fs' Hv Hf)|]. cbn [pproj_fields]. rewrite Eff, Etf. exact Hp. }
+      destruct (negb (pf_kind ff =? pf_kind tf)) eqn:Ek; [discriminate|].
+      destruct (pf_kind ff =? K_MESSAGE) eqn:Em.
+      + destruct (Z.eqb_spec (v mod 8) 2) as [E2|]; cbn [negb] in H; [|discriminate].
+        destruct (varint_dec r) as [len m] eqn:Evr. destruct (Z.ltb_spec m 0); [destruct be; discriminate|].
+        destruct (Z.geb_spec len (2 ^ 63)); [discriminate|].
+        pose proof (varint_dec_result r len m Evr) as Hresr.
+        assert (Hm1 : 1 <= m <= Z.of_nat (length r)) by (destruct Hresr as [[? ?]|[[? ?]|[? ?]]]; lia).
+        set (r2 := skipn (Z.to_nat m) r) in *.
+        destruct (Z.leb_spec len (Z.of_nat (length r2))) as [Hfit|].
+        2:{ destruct be; [|discriminate]. destruct (pspec d dis f (pf_sub ff) (pf_sub tf) r2 true true); discriminate. }
+        destruct (pspec d dis f (pf_sub ff) (pf_sub tf) (firstn (Z.to_nat len) r2) false _) as [kids|] eqn:Ekids; [|discriminate].
+        destruct (pspec_loop dis (pspec d dis f) sf ffs tfs (skipn (Z.to_nat len) r2) false be) as [l|] eqn:El; [|discriminate].
+        inversion H; subst forest.
+        assert (Hlen0 : 0 <= len) by (pose proof (varint_dec_value r len m Hbr Evr); lia).
+        assert (Hr2l : length r2 = (length r - Z.to_nat m)%nat) by (unfold r2; apply skipn_length).
+        assert (Hwv : wire_value (v mod 8) r = Some (firstn (Z.to_nat (m + len)) r, skipn (Z.to_nat len) r2)).
+        { unfold wire_value. rewrite E2. cbn [Z.eqb Pos.eqb]. rewrite Evr. destruct (Z.ltb_spec m 0); [lia|].
+          unfold take_n. destruct (Z.ltb_spec (m + len) 0); [lia|]. destruct (Z.gtb_spec (m + len) (Z.of_nat (length r))); [lia|].
+          cbn [orb]. f_equal. f_equal. unfold r2. rewrite skipn_skipn'. f_equal. lia. }
+        assert (Hpay : payload (firstn (Z.to_nat (m + len)) r) = firstn (Z.to_nat len) r2).
+        { unfold payload.
+          assert (Hpre : varint_dec (firstn (Z.to_nat (m + len)) r) = (len, m)).
+          { apply (varint_dec_prefix _ (skipn (Z.to_nat (m + len)) r)); [rewrite firstn_skipn; exact Evr|lia|rewrite firstn_length; lia]. }
+          rewrite Hpre. unfold r2. rewrite skipn_firstn_comm. f_equal. lia. }
+        destruct (IH _ be l ltac:(unfold r2; apply bytes_ok_skipn, bytes_ok_skipn; exact Hbr) El wf) as [fs' [Hf Hp]]; [rewrite !skipn_length; lia|].
+        exists (WF (v / 8) (v mod 8) (firstn (Z.to_nat (m + len)) r) :: fs'). split; [apply (Hstep _ _ fs' Hwv Hf)|].
+        cbn [pproj_fields]. rewrite Eff, Etf, Ek, Em. destruct (Z.eqb_spec (v mod 8) 2); [|contradiction]. cbn [negb].
+        unfold r2 in *. rewrite Hpay. rewrite (Hrec _ _ _ _ _ ltac:( apply bytes_ok_firstn, bytes_ok_skipn; exact Hbr) Ekids). rewrite Hp. reflexivity.
+      + destruct (wire_value (v mod 8) r) as [[raw rest]|] eqn:Ewv; [|destruct be; discriminate].
+        destruct (pspec_loop dis (pspec d dis f) sf ffs tfs rest false be) as [l|] eqn:El; [|discriminate]. inversion H; subst forest.
+        pose proof (wire_value_split _ _ _ _ Ewv) as Hq.
+        destruct (IH rest be l ltac:(rewrite Hq in Hbr; apply (bytes_ok_app_r _ _ Hbr)) El wf) as [fs' [Hf Hp]]; [rewrite Hq, app_length in Hrl; lia|].
+        exists (WF (v / 8) (v mod 8) raw :: fs'). split; [apply (Hstep raw rest fs' eq_refl Hf)|].
+        cbn [pproj_fields]. rewrite Eff, Etf, Ek, Em, Hp. reflexivity.
+  Qed.
+
+  (* whenever the sequential spec succeeds on a complete frame, the declarative projection (decode the level, keep the numbers
+     declared by both schemas, project message-kind payloads) succeeds with the SAME tree: all exactness theorems about
+     pproj_fields hold for what the walker outputs *)
+  Theorem pspec_ok_pproject : forall fuel fi ti bs be l, bytes_ok bs ->
+    pspec d dis fuel fi ti bs false be = COk l -> pproject d dis fuel fi ti bs = COk l.
+  Proof.
+    induction fuel as [|f IH]; intros fi ti bs be l Hb H; [discriminate|]. cbn [pspec] in H. cbn [pproject].
+    destruct (pmsg_def d fi) as [ffs|]; [|discriminate]. destruct (pmsg_def d ti) as [tfs|]; [|discriminate].
+    destruct (pspec_loop_ok_pproj f ffs tfs IH _ bs be l Hb H (S (length bs)) ltac:(lia)) as [fs [Hf Hp]].
+    rewrite Hf. exact Hp.
+  Qed.
+End Bridge.
